@@ -847,11 +847,15 @@ func (in *Interp) cond(e ast.Expr, st *State) (t, f *State) {
 		case token.LAND:
 			t1, f1 := in.cond(x.X, st)
 			t2, f2 := in.cond(x.Y, t1)
-			return t2, Join(f1, f2)
+			t, f = t2, Join(f1, f2)
+			in.compound(x, t, f)
+			return t, f
 		case token.LOR:
 			t1, f1 := in.cond(x.X, st)
 			t2, f2 := in.cond(x.Y, f1)
-			return Join(t1, t2), f2
+			t, f = Join(t1, t2), f2
+			in.compound(x, t, f)
+			return t, f
 		}
 	}
 	st = in.expr(e, st)
@@ -864,6 +868,20 @@ func (in *Interp) cond(e ast.Expr, st *State) (t, f *State) {
 		in.H.Cond(e, false, f)
 	}
 	return t, f
+}
+
+// compound delivers a whole && / || condition to Hooks.Cond as well (after its atoms), so that
+// rules can recognise guards of the form `if A && B { return }` on the fall-through edge.
+func (in *Interp) compound(e ast.Expr, t, f *State) {
+	if in.H.Cond == nil {
+		return
+	}
+	if t != nil {
+		in.H.Cond(e, true, t)
+	}
+	if f != nil {
+		in.H.Cond(e, false, f)
+	}
 }
 
 // lhs evaluates the operands of an assignment target (not the target itself).
